@@ -1,10 +1,10 @@
 #!/bin/sh
-# Evaluate every seeded change with the registered checks, four shards (by property) in parallel, and merge the
+# Evaluate every seeded change with the registered checks, seven shards (by property) in parallel, and merge the
 # shards' results into seeded/RESULTS.json.  Usage: tools/eval_parallel.sh   (about 1 h for ~450 changes)
 cd "$(dirname "$0")/.."
 OUT=$(mktemp -d /tmp/verif_evalp_XXXXXX)
 i=0
-for shard in "C01 C05 C09 C13 C17" "C02 C06 C10 C14 C18" "C03 C07 C11 C15 C19" "C04 C08 C12 C16"; do
+for shard in "C01 C09 C17" "C05 C13 C02" "C06 C10 C14" "C18 C03 C07" "C11 C15 C19" "C04 C08" "C12 C16"; do
   i=$((i+1))
   EVAL_RESULTS=$OUT/r$i.json python3 tools/eval_seeded.py $shard > $OUT/log$i.txt 2>&1 &
 done
